@@ -10,8 +10,49 @@
 #include <xercesc/util/UTFDataFormatException.hpp>
 #include <xercesc/util/TranscodingException.hpp>
 #include <xercesc/framework/XMLRecognizer.hpp>
+#include <xercesc/framework/MemBufInputSource.hpp>
+#include <xercesc/sax2/SAX2XMLReader.hpp>
+#include <xercesc/sax2/XMLReaderFactory.hpp>
+#include <xercesc/sax2/DefaultHandler.hpp>
+#include <xercesc/sax2/Attributes.hpp>
+#include <xercesc/sax/SAXParseException.hpp>
+#include <xercesc/util/XMLUni.hpp>
+#include <xercesc/util/OutOfMemoryException.hpp>
 
 static XMLTranscoder* gT = 0;
+
+// document level: D <hex bytes>  ->  ok <content as hex code units> w=<warnings> e=<errors>  |  fatal <msg-code-less text>
+struct DocH : public DefaultHandler {
+    std::vector<uint32_t> out; int warnings = 0, errors = 0, fatals = 0;
+    void put(const XMLCh* s) { for (; s && *s; ++s) out.push_back(*s); out.push_back(0x7C); }
+    void startElement(const XMLCh* const, const XMLCh* const, const XMLCh* const q, const Attributes& a) override {
+        out.push_back(0x3C); put(q);
+        for (XMLSize_t i = 0; i < a.getLength(); i++) { put(a.getQName(i)); put(a.getValue(i)); }
+    }
+    void endElement(const XMLCh* const, const XMLCh* const, const XMLCh* const) override { out.push_back(0x3E); }
+    void characters(const XMLCh* const c, const XMLSize_t n) override { for (XMLSize_t i = 0; i < n; i++) out.push_back(c[i]); }
+    void warning(const SAXParseException&) override { warnings++; }
+    void error(const SAXParseException&) override { errors++; }
+    void fatalError(const SAXParseException&) override { fatals++; }
+};
+static std::string doDoc(const std::vector<uint32_t>& bytes) {
+    std::vector<XMLByte> raw(bytes.size() + 1);
+    for (size_t i = 0; i < bytes.size(); i++) raw[i] = (XMLByte)bytes[i];
+    DocH h;
+    try {
+        SAX2XMLReader* p = XMLReaderFactory::createXMLReader();
+        p->setContentHandler(&h); p->setErrorHandler(&h);
+        p->setFeature(XMLUni::fgXercesLoadExternalDTD, false);
+        p->setFeature(XMLUni::fgXercesDisableDefaultEntityResolution, true);
+        MemBufInputSource src(raw.data(), bytes.size(), "doc", false);
+        try { p->parse(src); } catch (const OutOfMemoryException&) { delete p; return "exc OutOfMemory"; }
+        catch (const XMLException& e) { delete p; return std::string("exc ") + hx::narrow(e.getType()); }
+        catch (const SAXException&) { delete p; return "exc SAXException"; }
+        delete p;
+    } catch (...) { return "FOREIGN-EXCEPTION"; }
+    if (h.fatals) return "fatal";
+    return "ok " + hx::hexList(h.out) + " w=" + std::to_string(h.warnings) + " e=" + std::to_string(h.errors);
+}
 
 static const char* excName(const XMLException& e) {
     switch (e.getCode()) {
@@ -98,6 +139,8 @@ int main(int argc, char** argv) {
         } else if (f[0] == "GC" && f.size() == 3) {
             XMLTranscoder* t = tcFor(f[1]);
             puts(!t ? "no-transcoder" : t->canTranscodeTo((unsigned)std::stoul(f[2], 0, 16)) ? "1" : "0");
+        } else if (f[0] == "D" && f.size() == 2) {
+            puts(doDoc(hx::parseHexList(f[1])).c_str());
         } else if (f[0] == "P" && f.size() == 2) {
             auto bs = hx::parseHexList(f[1]);
             std::vector<XMLByte> raw(bs.size() + 32, 0xEE);
